@@ -256,6 +256,30 @@ fn gen_archive(rng: &mut Rng, n_paths: usize, n_queries: usize, out: &mut dyn Wr
                 slots[si].entries.push(e);
             }
             slots[si].entries.push(format!("P{}/{}/{}/{}", hex(p.as_bytes()), syn, dat_id, units));
+            // a later duplicate in the same table must lose against the first one
+            if rng.chance(1, 8) {
+                let e = format!("P{}/0/{}/{}", hex(p.as_bytes()), rng.below(8), rng.below(1 << 20));
+                slots[si].entries.push(e);
+            }
+        }
+        // the same path again in a later chunk (shadowed: chunk ascending, index before index2)
+        if chunk < 250 && rng.chance(1, 6) {
+            let k = rng.range(1, 2) as u32;
+            let chunk2 = chunk + rng.range(1, 4) as u32;
+            if !slots.iter().any(|s| s.exp == exp && s.cat == cat && s.chunk == chunk2 && s.kind == k) {
+                slots.push(Slot {
+                    exp,
+                    cat,
+                    chunk: chunk2,
+                    kind: k,
+                    junk: None,
+                    plat,
+                    hdr_kind: k,
+                    data_len: 256,
+                    folder_len: 16,
+                    entries: vec![format!("P{}/0/{}/{}", hex(p.as_bytes()), rng.below(8), rng.below(1 << 20))],
+                });
+            }
         }
         stored.push(p);
     }
